@@ -99,7 +99,7 @@ def compare(ctx, j, prop, observables=('out', 'ld'), atol=1e-9, rtol=1e-9, check
     if e.spline.get('fam') == 'cubic' and j.inverse:
         # the trigonometric / Cardano root is only accurate to ~sqrt(ulp) near a vanishing discriminant; the
         # implementation declares eps = 1e-5 for its root selection
-        atol = max(atol, 2e-6 if j.prec == 'f64' else 1e-3)
+        atol = max(atol, 2e-6 if j.prec == 'f64' else 5e-3)
     per_row = max(1, len(yl) // max(1, len(ldl)))
     unit = 1e-15 if j.prec == 'f64' else 1e-6
     kap = [unit * math.exp(min(60.0, abs(v))) if math.isfinite(v) else 0.0 for v in ldl]
